@@ -291,3 +291,39 @@ pub fn crafted_points_sharded(p: &mut Prng, per_class: usize, shard: u64, shards
     }
     out
 }
+
+/// Operand pairs (a, b), both below `m`, whose INTEGER product has a chosen shape: in [m, 2^256) (upper half zero but
+/// not reduced), just below m, at 2^256 - 1 - j, in [2^256, 2^256 + m); `a` of many bit lengths (2 .. 250), each pair
+/// also swapped. A "small product" or "half-width operand" shortcut in a modular multiplication is wrong only here.
+pub fn product_shapes(m: &BigUint, p: &mut Prng) -> Vec<(String, BigUint, BigUint)> {
+    let two256: BigUint = BigUint::one() << 256;
+    let mut out = vec![];
+    for abits in [2u64, 3, 17, 33, 64, 65, 96, 127, 128, 129, 160, 192, 224, 250] {
+        let mut a = BigUint::from_bytes_be(&p.bytes(32)) >> (256 - abits);
+        a.set_bit(abits - 1, true);
+        if &a >= m {
+            continue;
+        }
+        let small = BigUint::from(p.below(1 << 20));
+        let span = &two256 - m;
+        let mut targets: Vec<(&str, BigUint)> = vec![];
+        if a < span {
+            targets.push(("product_in_[m,2^256)", m + &a + BigUint::from_bytes_be(&p.bytes(40)) % (&span - &a)));
+        }
+        targets.extend(vec![
+            ("product=m+j", m + &a + &small),
+            ("product=2^256-1-j", &two256 - 1u32 - &small),
+            ("product_just_below_m", m - 1u32 - &small),
+            ("product_in_[2^256,2^256+m)", &two256 + &a + BigUint::from_bytes_be(&p.bytes(40)) % m),
+        ]);
+        for (nm, t) in targets {
+            let b = &t / &a;
+            if b.is_zero() || &b >= m {
+                continue;
+            }
+            out.push((format!("{}:a_bits={}", nm, abits), a.clone(), b.clone()));
+            out.push((format!("{}:b_bits={}", nm, abits), b, a.clone()));
+        }
+    }
+    out
+}
